@@ -4,7 +4,7 @@
 #ifndef TERM_H
 #define TERM_H
 #ifndef T_NT
-#define T_NT 48
+#define T_NT 72
 #endif
 #define T_LEAF 1
 #define T_ADD 2
@@ -13,77 +13,175 @@
 #define T_DIV 5
 #define T_NEG 6
 #define T_CALL 7
-extern int g_ti[1 + 4 * T_NT]; extern double g_tv[T_NT];
-#define g_tn g_ti[0]
-#define g_top(n) g_ti[1 + 4 * (n)]
-#define g_ta(n) g_ti[2 + 4 * (n)]
-#define g_tb(n) g_ti[3 + 4 * (n)]
-#define g_tc(n) g_ti[4 + 4 * (n)]
-#define TERM_GHOST_DEFS int g_ti[1 + 4 * T_NT]; double g_tv[T_NT];
-#define TERM_FRAME __CPROVER_object_whole(g_ti), __CPROVER_object_whole(g_tv)
-/* node creation as a contract-replaced call (units compiled with -DCVS_TNODE_CALL) */
-int k_tnode(int op, int a, int b, int c, double val, int isleaf)
-__CPROVER_requires(0 <= g_tn && g_tn < T_NT)
-__CPROVER_assigns(g_ti[0], g_ti[1 + 4 * g_tn], g_ti[2 + 4 * g_tn], g_ti[3 + 4 * g_tn], g_ti[4 + 4 * g_tn], g_tv[g_tn])
-__CPROVER_ensures(g_tn == __CPROVER_old(g_tn) + 1 && __CPROVER_return_value == __CPROVER_old(g_tn))
-__CPROVER_ensures(g_ti[1 + 4 * __CPROVER_return_value] == op && g_ti[2 + 4 * __CPROVER_return_value] == a && g_ti[3 + 4 * __CPROVER_return_value] == b && g_ti[4 + 4 * __CPROVER_return_value] == c)
-__CPROVER_ensures((isleaf ==> g_tv[__CPROVER_return_value] == val) && g_tv[__CPROVER_return_value] >= -1.0e300 && g_tv[__CPROVER_return_value] <= 1.0e300)
-;
+extern unsigned long long g_tw[T_NT]; extern double g_tv[T_NT];
+extern int g_tn_;
+#define g_tn g_tn_
+/* one packed word per node (stubs/sreal.h): operator, operands a, b, c stored +1 */
+#define g_top(n) ((int) (g_tw[n] & 255))
+#define g_ta(n) ((int) ((g_tw[n] >> 8) & 65535) - 1)
+#define g_tb(n) ((int) ((g_tw[n] >> 24) & 65535) - 1)
+#define g_tc(n) ((int) ((g_tw[n] >> 40) & 65535) - 1)
+#define TERM_GHOST_DEFS int g_tn_; unsigned long long g_tw[T_NT]; double g_tv[T_NT];
+#define TERM_FRAME g_tn_, __CPROVER_object_whole(g_tw), __CPROVER_object_whole(g_tv)
 #define TVALID(n) ((n) >= 0 && (n) < g_tn && (n) < T_NT)
 /* node n is the literal/input value x */
-#define P_LEAF(n, x) (TVALID(n) && g_top(n) == T_LEAF && g_tv[n] == (x))
+#define P_LEAF(n, x) P_LEAF_X(n, x, __COUNTER__)
+#define P_LEAF_X(n, x, u) P_LEAF_Y(n, x, u)
+#define P_LEAF_Y(n, x, u) ({ int nn_##u = (n); (TVALID(nn_##u) && g_top(nn_##u) == T_LEAF && g_tv[nn_##u] == (x)) || (nn_##u == -1 && (x) == 0.0); })   /* -1: a real never assigned (0.0) */
 /* The C preprocessor does not re-expand a macro inside its own expansion, so every pattern constructor exists in
-   identical copies 1..7: a pattern at nesting depth d (root = 1) uses the copy numbered d. */
-#define P_BIN1(n, op, A, B) (TVALID(n) && g_top(n) == (op) && A(g_ta(n)) && B(g_tb(n)))
-#define P_NEG1(n, A) (TVALID(n) && g_top(n) == T_NEG && A(g_ta(n)))
-#define P_CALL1_1(n, cid, A) (TVALID(n) && g_top(n) == T_CALL + (cid) && A(g_ta(n)))
-#define P_CALL2_1(n, cid, A, B) (TVALID(n) && g_top(n) == T_CALL + (cid) && A(g_ta(n)) && B(g_tb(n)))
-#define P_CALL3_1(n, cid, A, B, C) (TVALID(n) && g_top(n) == T_CALL + (cid) && A(g_ta(n)) && B(g_tb(n)) && C(g_tc(n)))
-#define P_VCALL1_1(n, cid, tag, B) (TVALID(n) && g_top(n) == T_CALL + (cid) && g_ta(n) == (tag) && B(g_tb(n)))
-#define P_VCALL2_1(n, cid, tag, B, C) (TVALID(n) && g_top(n) == T_CALL + (cid) && g_ta(n) == (tag) && B(g_tb(n)) && C(g_tc(n)))
-#define P_BIN2(n, op, A, B) (TVALID(n) && g_top(n) == (op) && A(g_ta(n)) && B(g_tb(n)))
-#define P_NEG2(n, A) (TVALID(n) && g_top(n) == T_NEG && A(g_ta(n)))
-#define P_CALL1_2(n, cid, A) (TVALID(n) && g_top(n) == T_CALL + (cid) && A(g_ta(n)))
-#define P_CALL2_2(n, cid, A, B) (TVALID(n) && g_top(n) == T_CALL + (cid) && A(g_ta(n)) && B(g_tb(n)))
-#define P_CALL3_2(n, cid, A, B, C) (TVALID(n) && g_top(n) == T_CALL + (cid) && A(g_ta(n)) && B(g_tb(n)) && C(g_tc(n)))
-#define P_VCALL1_2(n, cid, tag, B) (TVALID(n) && g_top(n) == T_CALL + (cid) && g_ta(n) == (tag) && B(g_tb(n)))
-#define P_VCALL2_2(n, cid, tag, B, C) (TVALID(n) && g_top(n) == T_CALL + (cid) && g_ta(n) == (tag) && B(g_tb(n)) && C(g_tc(n)))
-#define P_BIN3(n, op, A, B) (TVALID(n) && g_top(n) == (op) && A(g_ta(n)) && B(g_tb(n)))
-#define P_NEG3(n, A) (TVALID(n) && g_top(n) == T_NEG && A(g_ta(n)))
-#define P_CALL1_3(n, cid, A) (TVALID(n) && g_top(n) == T_CALL + (cid) && A(g_ta(n)))
-#define P_CALL2_3(n, cid, A, B) (TVALID(n) && g_top(n) == T_CALL + (cid) && A(g_ta(n)) && B(g_tb(n)))
-#define P_CALL3_3(n, cid, A, B, C) (TVALID(n) && g_top(n) == T_CALL + (cid) && A(g_ta(n)) && B(g_tb(n)) && C(g_tc(n)))
-#define P_VCALL1_3(n, cid, tag, B) (TVALID(n) && g_top(n) == T_CALL + (cid) && g_ta(n) == (tag) && B(g_tb(n)))
-#define P_VCALL2_3(n, cid, tag, B, C) (TVALID(n) && g_top(n) == T_CALL + (cid) && g_ta(n) == (tag) && B(g_tb(n)) && C(g_tc(n)))
-#define P_BIN4(n, op, A, B) (TVALID(n) && g_top(n) == (op) && A(g_ta(n)) && B(g_tb(n)))
-#define P_NEG4(n, A) (TVALID(n) && g_top(n) == T_NEG && A(g_ta(n)))
-#define P_CALL1_4(n, cid, A) (TVALID(n) && g_top(n) == T_CALL + (cid) && A(g_ta(n)))
-#define P_CALL2_4(n, cid, A, B) (TVALID(n) && g_top(n) == T_CALL + (cid) && A(g_ta(n)) && B(g_tb(n)))
-#define P_CALL3_4(n, cid, A, B, C) (TVALID(n) && g_top(n) == T_CALL + (cid) && A(g_ta(n)) && B(g_tb(n)) && C(g_tc(n)))
-#define P_VCALL1_4(n, cid, tag, B) (TVALID(n) && g_top(n) == T_CALL + (cid) && g_ta(n) == (tag) && B(g_tb(n)))
-#define P_VCALL2_4(n, cid, tag, B, C) (TVALID(n) && g_top(n) == T_CALL + (cid) && g_ta(n) == (tag) && B(g_tb(n)) && C(g_tc(n)))
-#define P_BIN5(n, op, A, B) (TVALID(n) && g_top(n) == (op) && A(g_ta(n)) && B(g_tb(n)))
-#define P_NEG5(n, A) (TVALID(n) && g_top(n) == T_NEG && A(g_ta(n)))
-#define P_CALL1_5(n, cid, A) (TVALID(n) && g_top(n) == T_CALL + (cid) && A(g_ta(n)))
-#define P_CALL2_5(n, cid, A, B) (TVALID(n) && g_top(n) == T_CALL + (cid) && A(g_ta(n)) && B(g_tb(n)))
-#define P_CALL3_5(n, cid, A, B, C) (TVALID(n) && g_top(n) == T_CALL + (cid) && A(g_ta(n)) && B(g_tb(n)) && C(g_tc(n)))
-#define P_VCALL1_5(n, cid, tag, B) (TVALID(n) && g_top(n) == T_CALL + (cid) && g_ta(n) == (tag) && B(g_tb(n)))
-#define P_VCALL2_5(n, cid, tag, B, C) (TVALID(n) && g_top(n) == T_CALL + (cid) && g_ta(n) == (tag) && B(g_tb(n)) && C(g_tc(n)))
-#define P_BIN6(n, op, A, B) (TVALID(n) && g_top(n) == (op) && A(g_ta(n)) && B(g_tb(n)))
-#define P_NEG6(n, A) (TVALID(n) && g_top(n) == T_NEG && A(g_ta(n)))
-#define P_CALL1_6(n, cid, A) (TVALID(n) && g_top(n) == T_CALL + (cid) && A(g_ta(n)))
-#define P_CALL2_6(n, cid, A, B) (TVALID(n) && g_top(n) == T_CALL + (cid) && A(g_ta(n)) && B(g_tb(n)))
-#define P_CALL3_6(n, cid, A, B, C) (TVALID(n) && g_top(n) == T_CALL + (cid) && A(g_ta(n)) && B(g_tb(n)) && C(g_tc(n)))
-#define P_VCALL1_6(n, cid, tag, B) (TVALID(n) && g_top(n) == T_CALL + (cid) && g_ta(n) == (tag) && B(g_tb(n)))
-#define P_VCALL2_6(n, cid, tag, B, C) (TVALID(n) && g_top(n) == T_CALL + (cid) && g_ta(n) == (tag) && B(g_tb(n)) && C(g_tc(n)))
-#define P_BIN7(n, op, A, B) (TVALID(n) && g_top(n) == (op) && A(g_ta(n)) && B(g_tb(n)))
-#define P_NEG7(n, A) (TVALID(n) && g_top(n) == T_NEG && A(g_ta(n)))
-#define P_CALL1_7(n, cid, A) (TVALID(n) && g_top(n) == T_CALL + (cid) && A(g_ta(n)))
-#define P_CALL2_7(n, cid, A, B) (TVALID(n) && g_top(n) == T_CALL + (cid) && A(g_ta(n)) && B(g_tb(n)))
-#define P_CALL3_7(n, cid, A, B, C) (TVALID(n) && g_top(n) == T_CALL + (cid) && A(g_ta(n)) && B(g_tb(n)) && C(g_tc(n)))
-#define P_VCALL1_7(n, cid, tag, B) (TVALID(n) && g_top(n) == T_CALL + (cid) && g_ta(n) == (tag) && B(g_tb(n)))
-#define P_VCALL2_7(n, cid, tag, B, C) (TVALID(n) && g_top(n) == T_CALL + (cid) && g_ta(n) == (tag) && B(g_tb(n)) && C(g_tc(n)))
-#define P_VCALL0(n, cid, tag) (TVALID(n) && g_top(n) == T_CALL + (cid) && g_ta(n) == (tag))
+   identical copies 1..7: a pattern at nesting depth d (root = 1) uses the copy numbered d.  Each copy evaluates its node
+   argument ONCE into a uniquely named (__COUNTER__) local of a GNU statement expression: plain textual nesting repeats the argument at every level
+   (4^depth array reads), which made symbolic execution of deep patterns the dominant cost. */
+#define P_BIN1(n, op, A, B) P_BIN1_X(n, op, A, B, __COUNTER__)
+#define P_BIN1_X(n, op, A, B, u) P_BIN1_Y(n, op, A, B, u)
+#define P_BIN1_Y(n, op, A, B, u) ({ int nn_##u = (n); TVALID(nn_##u) && g_top(nn_##u) == (op) && A(g_ta(nn_##u)) && B(g_tb(nn_##u)); })
+#define P_NEG1(n, A) P_NEG1_X(n, A, __COUNTER__)
+#define P_NEG1_X(n, A, u) P_NEG1_Y(n, A, u)
+#define P_NEG1_Y(n, A, u) ({ int nn_##u = (n); TVALID(nn_##u) && g_top(nn_##u) == T_NEG && A(g_ta(nn_##u)); })
+#define P_CALL1_1(n, cid, A) P_CALL1_1_X(n, cid, A, __COUNTER__)
+#define P_CALL1_1_X(n, cid, A, u) P_CALL1_1_Y(n, cid, A, u)
+#define P_CALL1_1_Y(n, cid, A, u) ({ int nn_##u = (n); TVALID(nn_##u) && g_top(nn_##u) == T_CALL + (cid) && A(g_ta(nn_##u)); })
+#define P_CALL2_1(n, cid, A, B) P_CALL2_1_X(n, cid, A, B, __COUNTER__)
+#define P_CALL2_1_X(n, cid, A, B, u) P_CALL2_1_Y(n, cid, A, B, u)
+#define P_CALL2_1_Y(n, cid, A, B, u) ({ int nn_##u = (n); TVALID(nn_##u) && g_top(nn_##u) == T_CALL + (cid) && A(g_ta(nn_##u)) && B(g_tb(nn_##u)); })
+#define P_CALL3_1(n, cid, A, B, C) P_CALL3_1_X(n, cid, A, B, C, __COUNTER__)
+#define P_CALL3_1_X(n, cid, A, B, C, u) P_CALL3_1_Y(n, cid, A, B, C, u)
+#define P_CALL3_1_Y(n, cid, A, B, C, u) ({ int nn_##u = (n); TVALID(nn_##u) && g_top(nn_##u) == T_CALL + (cid) && A(g_ta(nn_##u)) && B(g_tb(nn_##u)) && C(g_tc(nn_##u)); })
+#define P_VCALL1_1(n, cid, tag, B) P_VCALL1_1_X(n, cid, tag, B, __COUNTER__)
+#define P_VCALL1_1_X(n, cid, tag, B, u) P_VCALL1_1_Y(n, cid, tag, B, u)
+#define P_VCALL1_1_Y(n, cid, tag, B, u) ({ int nn_##u = (n); TVALID(nn_##u) && g_top(nn_##u) == T_CALL + (cid) && g_ta(nn_##u) == (tag) && B(g_tb(nn_##u)); })
+#define P_VCALL2_1(n, cid, tag, B, C) P_VCALL2_1_X(n, cid, tag, B, C, __COUNTER__)
+#define P_VCALL2_1_X(n, cid, tag, B, C, u) P_VCALL2_1_Y(n, cid, tag, B, C, u)
+#define P_VCALL2_1_Y(n, cid, tag, B, C, u) ({ int nn_##u = (n); TVALID(nn_##u) && g_top(nn_##u) == T_CALL + (cid) && g_ta(nn_##u) == (tag) && B(g_tb(nn_##u)) && C(g_tc(nn_##u)); })
+#define P_BIN2(n, op, A, B) P_BIN2_X(n, op, A, B, __COUNTER__)
+#define P_BIN2_X(n, op, A, B, u) P_BIN2_Y(n, op, A, B, u)
+#define P_BIN2_Y(n, op, A, B, u) ({ int nn_##u = (n); TVALID(nn_##u) && g_top(nn_##u) == (op) && A(g_ta(nn_##u)) && B(g_tb(nn_##u)); })
+#define P_NEG2(n, A) P_NEG2_X(n, A, __COUNTER__)
+#define P_NEG2_X(n, A, u) P_NEG2_Y(n, A, u)
+#define P_NEG2_Y(n, A, u) ({ int nn_##u = (n); TVALID(nn_##u) && g_top(nn_##u) == T_NEG && A(g_ta(nn_##u)); })
+#define P_CALL1_2(n, cid, A) P_CALL1_2_X(n, cid, A, __COUNTER__)
+#define P_CALL1_2_X(n, cid, A, u) P_CALL1_2_Y(n, cid, A, u)
+#define P_CALL1_2_Y(n, cid, A, u) ({ int nn_##u = (n); TVALID(nn_##u) && g_top(nn_##u) == T_CALL + (cid) && A(g_ta(nn_##u)); })
+#define P_CALL2_2(n, cid, A, B) P_CALL2_2_X(n, cid, A, B, __COUNTER__)
+#define P_CALL2_2_X(n, cid, A, B, u) P_CALL2_2_Y(n, cid, A, B, u)
+#define P_CALL2_2_Y(n, cid, A, B, u) ({ int nn_##u = (n); TVALID(nn_##u) && g_top(nn_##u) == T_CALL + (cid) && A(g_ta(nn_##u)) && B(g_tb(nn_##u)); })
+#define P_CALL3_2(n, cid, A, B, C) P_CALL3_2_X(n, cid, A, B, C, __COUNTER__)
+#define P_CALL3_2_X(n, cid, A, B, C, u) P_CALL3_2_Y(n, cid, A, B, C, u)
+#define P_CALL3_2_Y(n, cid, A, B, C, u) ({ int nn_##u = (n); TVALID(nn_##u) && g_top(nn_##u) == T_CALL + (cid) && A(g_ta(nn_##u)) && B(g_tb(nn_##u)) && C(g_tc(nn_##u)); })
+#define P_VCALL1_2(n, cid, tag, B) P_VCALL1_2_X(n, cid, tag, B, __COUNTER__)
+#define P_VCALL1_2_X(n, cid, tag, B, u) P_VCALL1_2_Y(n, cid, tag, B, u)
+#define P_VCALL1_2_Y(n, cid, tag, B, u) ({ int nn_##u = (n); TVALID(nn_##u) && g_top(nn_##u) == T_CALL + (cid) && g_ta(nn_##u) == (tag) && B(g_tb(nn_##u)); })
+#define P_VCALL2_2(n, cid, tag, B, C) P_VCALL2_2_X(n, cid, tag, B, C, __COUNTER__)
+#define P_VCALL2_2_X(n, cid, tag, B, C, u) P_VCALL2_2_Y(n, cid, tag, B, C, u)
+#define P_VCALL2_2_Y(n, cid, tag, B, C, u) ({ int nn_##u = (n); TVALID(nn_##u) && g_top(nn_##u) == T_CALL + (cid) && g_ta(nn_##u) == (tag) && B(g_tb(nn_##u)) && C(g_tc(nn_##u)); })
+#define P_BIN3(n, op, A, B) P_BIN3_X(n, op, A, B, __COUNTER__)
+#define P_BIN3_X(n, op, A, B, u) P_BIN3_Y(n, op, A, B, u)
+#define P_BIN3_Y(n, op, A, B, u) ({ int nn_##u = (n); TVALID(nn_##u) && g_top(nn_##u) == (op) && A(g_ta(nn_##u)) && B(g_tb(nn_##u)); })
+#define P_NEG3(n, A) P_NEG3_X(n, A, __COUNTER__)
+#define P_NEG3_X(n, A, u) P_NEG3_Y(n, A, u)
+#define P_NEG3_Y(n, A, u) ({ int nn_##u = (n); TVALID(nn_##u) && g_top(nn_##u) == T_NEG && A(g_ta(nn_##u)); })
+#define P_CALL1_3(n, cid, A) P_CALL1_3_X(n, cid, A, __COUNTER__)
+#define P_CALL1_3_X(n, cid, A, u) P_CALL1_3_Y(n, cid, A, u)
+#define P_CALL1_3_Y(n, cid, A, u) ({ int nn_##u = (n); TVALID(nn_##u) && g_top(nn_##u) == T_CALL + (cid) && A(g_ta(nn_##u)); })
+#define P_CALL2_3(n, cid, A, B) P_CALL2_3_X(n, cid, A, B, __COUNTER__)
+#define P_CALL2_3_X(n, cid, A, B, u) P_CALL2_3_Y(n, cid, A, B, u)
+#define P_CALL2_3_Y(n, cid, A, B, u) ({ int nn_##u = (n); TVALID(nn_##u) && g_top(nn_##u) == T_CALL + (cid) && A(g_ta(nn_##u)) && B(g_tb(nn_##u)); })
+#define P_CALL3_3(n, cid, A, B, C) P_CALL3_3_X(n, cid, A, B, C, __COUNTER__)
+#define P_CALL3_3_X(n, cid, A, B, C, u) P_CALL3_3_Y(n, cid, A, B, C, u)
+#define P_CALL3_3_Y(n, cid, A, B, C, u) ({ int nn_##u = (n); TVALID(nn_##u) && g_top(nn_##u) == T_CALL + (cid) && A(g_ta(nn_##u)) && B(g_tb(nn_##u)) && C(g_tc(nn_##u)); })
+#define P_VCALL1_3(n, cid, tag, B) P_VCALL1_3_X(n, cid, tag, B, __COUNTER__)
+#define P_VCALL1_3_X(n, cid, tag, B, u) P_VCALL1_3_Y(n, cid, tag, B, u)
+#define P_VCALL1_3_Y(n, cid, tag, B, u) ({ int nn_##u = (n); TVALID(nn_##u) && g_top(nn_##u) == T_CALL + (cid) && g_ta(nn_##u) == (tag) && B(g_tb(nn_##u)); })
+#define P_VCALL2_3(n, cid, tag, B, C) P_VCALL2_3_X(n, cid, tag, B, C, __COUNTER__)
+#define P_VCALL2_3_X(n, cid, tag, B, C, u) P_VCALL2_3_Y(n, cid, tag, B, C, u)
+#define P_VCALL2_3_Y(n, cid, tag, B, C, u) ({ int nn_##u = (n); TVALID(nn_##u) && g_top(nn_##u) == T_CALL + (cid) && g_ta(nn_##u) == (tag) && B(g_tb(nn_##u)) && C(g_tc(nn_##u)); })
+#define P_BIN4(n, op, A, B) P_BIN4_X(n, op, A, B, __COUNTER__)
+#define P_BIN4_X(n, op, A, B, u) P_BIN4_Y(n, op, A, B, u)
+#define P_BIN4_Y(n, op, A, B, u) ({ int nn_##u = (n); TVALID(nn_##u) && g_top(nn_##u) == (op) && A(g_ta(nn_##u)) && B(g_tb(nn_##u)); })
+#define P_NEG4(n, A) P_NEG4_X(n, A, __COUNTER__)
+#define P_NEG4_X(n, A, u) P_NEG4_Y(n, A, u)
+#define P_NEG4_Y(n, A, u) ({ int nn_##u = (n); TVALID(nn_##u) && g_top(nn_##u) == T_NEG && A(g_ta(nn_##u)); })
+#define P_CALL1_4(n, cid, A) P_CALL1_4_X(n, cid, A, __COUNTER__)
+#define P_CALL1_4_X(n, cid, A, u) P_CALL1_4_Y(n, cid, A, u)
+#define P_CALL1_4_Y(n, cid, A, u) ({ int nn_##u = (n); TVALID(nn_##u) && g_top(nn_##u) == T_CALL + (cid) && A(g_ta(nn_##u)); })
+#define P_CALL2_4(n, cid, A, B) P_CALL2_4_X(n, cid, A, B, __COUNTER__)
+#define P_CALL2_4_X(n, cid, A, B, u) P_CALL2_4_Y(n, cid, A, B, u)
+#define P_CALL2_4_Y(n, cid, A, B, u) ({ int nn_##u = (n); TVALID(nn_##u) && g_top(nn_##u) == T_CALL + (cid) && A(g_ta(nn_##u)) && B(g_tb(nn_##u)); })
+#define P_CALL3_4(n, cid, A, B, C) P_CALL3_4_X(n, cid, A, B, C, __COUNTER__)
+#define P_CALL3_4_X(n, cid, A, B, C, u) P_CALL3_4_Y(n, cid, A, B, C, u)
+#define P_CALL3_4_Y(n, cid, A, B, C, u) ({ int nn_##u = (n); TVALID(nn_##u) && g_top(nn_##u) == T_CALL + (cid) && A(g_ta(nn_##u)) && B(g_tb(nn_##u)) && C(g_tc(nn_##u)); })
+#define P_VCALL1_4(n, cid, tag, B) P_VCALL1_4_X(n, cid, tag, B, __COUNTER__)
+#define P_VCALL1_4_X(n, cid, tag, B, u) P_VCALL1_4_Y(n, cid, tag, B, u)
+#define P_VCALL1_4_Y(n, cid, tag, B, u) ({ int nn_##u = (n); TVALID(nn_##u) && g_top(nn_##u) == T_CALL + (cid) && g_ta(nn_##u) == (tag) && B(g_tb(nn_##u)); })
+#define P_VCALL2_4(n, cid, tag, B, C) P_VCALL2_4_X(n, cid, tag, B, C, __COUNTER__)
+#define P_VCALL2_4_X(n, cid, tag, B, C, u) P_VCALL2_4_Y(n, cid, tag, B, C, u)
+#define P_VCALL2_4_Y(n, cid, tag, B, C, u) ({ int nn_##u = (n); TVALID(nn_##u) && g_top(nn_##u) == T_CALL + (cid) && g_ta(nn_##u) == (tag) && B(g_tb(nn_##u)) && C(g_tc(nn_##u)); })
+#define P_BIN5(n, op, A, B) P_BIN5_X(n, op, A, B, __COUNTER__)
+#define P_BIN5_X(n, op, A, B, u) P_BIN5_Y(n, op, A, B, u)
+#define P_BIN5_Y(n, op, A, B, u) ({ int nn_##u = (n); TVALID(nn_##u) && g_top(nn_##u) == (op) && A(g_ta(nn_##u)) && B(g_tb(nn_##u)); })
+#define P_NEG5(n, A) P_NEG5_X(n, A, __COUNTER__)
+#define P_NEG5_X(n, A, u) P_NEG5_Y(n, A, u)
+#define P_NEG5_Y(n, A, u) ({ int nn_##u = (n); TVALID(nn_##u) && g_top(nn_##u) == T_NEG && A(g_ta(nn_##u)); })
+#define P_CALL1_5(n, cid, A) P_CALL1_5_X(n, cid, A, __COUNTER__)
+#define P_CALL1_5_X(n, cid, A, u) P_CALL1_5_Y(n, cid, A, u)
+#define P_CALL1_5_Y(n, cid, A, u) ({ int nn_##u = (n); TVALID(nn_##u) && g_top(nn_##u) == T_CALL + (cid) && A(g_ta(nn_##u)); })
+#define P_CALL2_5(n, cid, A, B) P_CALL2_5_X(n, cid, A, B, __COUNTER__)
+#define P_CALL2_5_X(n, cid, A, B, u) P_CALL2_5_Y(n, cid, A, B, u)
+#define P_CALL2_5_Y(n, cid, A, B, u) ({ int nn_##u = (n); TVALID(nn_##u) && g_top(nn_##u) == T_CALL + (cid) && A(g_ta(nn_##u)) && B(g_tb(nn_##u)); })
+#define P_CALL3_5(n, cid, A, B, C) P_CALL3_5_X(n, cid, A, B, C, __COUNTER__)
+#define P_CALL3_5_X(n, cid, A, B, C, u) P_CALL3_5_Y(n, cid, A, B, C, u)
+#define P_CALL3_5_Y(n, cid, A, B, C, u) ({ int nn_##u = (n); TVALID(nn_##u) && g_top(nn_##u) == T_CALL + (cid) && A(g_ta(nn_##u)) && B(g_tb(nn_##u)) && C(g_tc(nn_##u)); })
+#define P_VCALL1_5(n, cid, tag, B) P_VCALL1_5_X(n, cid, tag, B, __COUNTER__)
+#define P_VCALL1_5_X(n, cid, tag, B, u) P_VCALL1_5_Y(n, cid, tag, B, u)
+#define P_VCALL1_5_Y(n, cid, tag, B, u) ({ int nn_##u = (n); TVALID(nn_##u) && g_top(nn_##u) == T_CALL + (cid) && g_ta(nn_##u) == (tag) && B(g_tb(nn_##u)); })
+#define P_VCALL2_5(n, cid, tag, B, C) P_VCALL2_5_X(n, cid, tag, B, C, __COUNTER__)
+#define P_VCALL2_5_X(n, cid, tag, B, C, u) P_VCALL2_5_Y(n, cid, tag, B, C, u)
+#define P_VCALL2_5_Y(n, cid, tag, B, C, u) ({ int nn_##u = (n); TVALID(nn_##u) && g_top(nn_##u) == T_CALL + (cid) && g_ta(nn_##u) == (tag) && B(g_tb(nn_##u)) && C(g_tc(nn_##u)); })
+#define P_BIN6(n, op, A, B) P_BIN6_X(n, op, A, B, __COUNTER__)
+#define P_BIN6_X(n, op, A, B, u) P_BIN6_Y(n, op, A, B, u)
+#define P_BIN6_Y(n, op, A, B, u) ({ int nn_##u = (n); TVALID(nn_##u) && g_top(nn_##u) == (op) && A(g_ta(nn_##u)) && B(g_tb(nn_##u)); })
+#define P_NEG6(n, A) P_NEG6_X(n, A, __COUNTER__)
+#define P_NEG6_X(n, A, u) P_NEG6_Y(n, A, u)
+#define P_NEG6_Y(n, A, u) ({ int nn_##u = (n); TVALID(nn_##u) && g_top(nn_##u) == T_NEG && A(g_ta(nn_##u)); })
+#define P_CALL1_6(n, cid, A) P_CALL1_6_X(n, cid, A, __COUNTER__)
+#define P_CALL1_6_X(n, cid, A, u) P_CALL1_6_Y(n, cid, A, u)
+#define P_CALL1_6_Y(n, cid, A, u) ({ int nn_##u = (n); TVALID(nn_##u) && g_top(nn_##u) == T_CALL + (cid) && A(g_ta(nn_##u)); })
+#define P_CALL2_6(n, cid, A, B) P_CALL2_6_X(n, cid, A, B, __COUNTER__)
+#define P_CALL2_6_X(n, cid, A, B, u) P_CALL2_6_Y(n, cid, A, B, u)
+#define P_CALL2_6_Y(n, cid, A, B, u) ({ int nn_##u = (n); TVALID(nn_##u) && g_top(nn_##u) == T_CALL + (cid) && A(g_ta(nn_##u)) && B(g_tb(nn_##u)); })
+#define P_CALL3_6(n, cid, A, B, C) P_CALL3_6_X(n, cid, A, B, C, __COUNTER__)
+#define P_CALL3_6_X(n, cid, A, B, C, u) P_CALL3_6_Y(n, cid, A, B, C, u)
+#define P_CALL3_6_Y(n, cid, A, B, C, u) ({ int nn_##u = (n); TVALID(nn_##u) && g_top(nn_##u) == T_CALL + (cid) && A(g_ta(nn_##u)) && B(g_tb(nn_##u)) && C(g_tc(nn_##u)); })
+#define P_VCALL1_6(n, cid, tag, B) P_VCALL1_6_X(n, cid, tag, B, __COUNTER__)
+#define P_VCALL1_6_X(n, cid, tag, B, u) P_VCALL1_6_Y(n, cid, tag, B, u)
+#define P_VCALL1_6_Y(n, cid, tag, B, u) ({ int nn_##u = (n); TVALID(nn_##u) && g_top(nn_##u) == T_CALL + (cid) && g_ta(nn_##u) == (tag) && B(g_tb(nn_##u)); })
+#define P_VCALL2_6(n, cid, tag, B, C) P_VCALL2_6_X(n, cid, tag, B, C, __COUNTER__)
+#define P_VCALL2_6_X(n, cid, tag, B, C, u) P_VCALL2_6_Y(n, cid, tag, B, C, u)
+#define P_VCALL2_6_Y(n, cid, tag, B, C, u) ({ int nn_##u = (n); TVALID(nn_##u) && g_top(nn_##u) == T_CALL + (cid) && g_ta(nn_##u) == (tag) && B(g_tb(nn_##u)) && C(g_tc(nn_##u)); })
+#define P_BIN7(n, op, A, B) P_BIN7_X(n, op, A, B, __COUNTER__)
+#define P_BIN7_X(n, op, A, B, u) P_BIN7_Y(n, op, A, B, u)
+#define P_BIN7_Y(n, op, A, B, u) ({ int nn_##u = (n); TVALID(nn_##u) && g_top(nn_##u) == (op) && A(g_ta(nn_##u)) && B(g_tb(nn_##u)); })
+#define P_NEG7(n, A) P_NEG7_X(n, A, __COUNTER__)
+#define P_NEG7_X(n, A, u) P_NEG7_Y(n, A, u)
+#define P_NEG7_Y(n, A, u) ({ int nn_##u = (n); TVALID(nn_##u) && g_top(nn_##u) == T_NEG && A(g_ta(nn_##u)); })
+#define P_CALL1_7(n, cid, A) P_CALL1_7_X(n, cid, A, __COUNTER__)
+#define P_CALL1_7_X(n, cid, A, u) P_CALL1_7_Y(n, cid, A, u)
+#define P_CALL1_7_Y(n, cid, A, u) ({ int nn_##u = (n); TVALID(nn_##u) && g_top(nn_##u) == T_CALL + (cid) && A(g_ta(nn_##u)); })
+#define P_CALL2_7(n, cid, A, B) P_CALL2_7_X(n, cid, A, B, __COUNTER__)
+#define P_CALL2_7_X(n, cid, A, B, u) P_CALL2_7_Y(n, cid, A, B, u)
+#define P_CALL2_7_Y(n, cid, A, B, u) ({ int nn_##u = (n); TVALID(nn_##u) && g_top(nn_##u) == T_CALL + (cid) && A(g_ta(nn_##u)) && B(g_tb(nn_##u)); })
+#define P_CALL3_7(n, cid, A, B, C) P_CALL3_7_X(n, cid, A, B, C, __COUNTER__)
+#define P_CALL3_7_X(n, cid, A, B, C, u) P_CALL3_7_Y(n, cid, A, B, C, u)
+#define P_CALL3_7_Y(n, cid, A, B, C, u) ({ int nn_##u = (n); TVALID(nn_##u) && g_top(nn_##u) == T_CALL + (cid) && A(g_ta(nn_##u)) && B(g_tb(nn_##u)) && C(g_tc(nn_##u)); })
+#define P_VCALL1_7(n, cid, tag, B) P_VCALL1_7_X(n, cid, tag, B, __COUNTER__)
+#define P_VCALL1_7_X(n, cid, tag, B, u) P_VCALL1_7_Y(n, cid, tag, B, u)
+#define P_VCALL1_7_Y(n, cid, tag, B, u) ({ int nn_##u = (n); TVALID(nn_##u) && g_top(nn_##u) == T_CALL + (cid) && g_ta(nn_##u) == (tag) && B(g_tb(nn_##u)); })
+#define P_VCALL2_7(n, cid, tag, B, C) P_VCALL2_7_X(n, cid, tag, B, C, __COUNTER__)
+#define P_VCALL2_7_X(n, cid, tag, B, C, u) P_VCALL2_7_Y(n, cid, tag, B, C, u)
+#define P_VCALL2_7_Y(n, cid, tag, B, C, u) ({ int nn_##u = (n); TVALID(nn_##u) && g_top(nn_##u) == T_CALL + (cid) && g_ta(nn_##u) == (tag) && B(g_tb(nn_##u)) && C(g_tc(nn_##u)); })
+#define P_VCALL0(n, cid, tag) P_VCALL0_X(n, cid, tag, __COUNTER__)
+#define P_VCALL0_X(n, cid, tag, u) P_VCALL0_Y(n, cid, tag, u)
+#define P_VCALL0_Y(n, cid, tag, u) ({ int nn_##u = (n); TVALID(nn_##u) && g_top(nn_##u) == T_CALL + (cid) && g_ta(nn_##u) == (tag); })
 /* call ids (same order as stubs/cvm_stub.h) */
 #define CID_FLOOR 1
 #define CID_SQRT 2
@@ -100,6 +198,10 @@ __CPROVER_ensures((isleaf ==> g_tv[__CPROVER_return_value] == val) && g_tv[__CPR
 #define CID_INTERPOLATE 13
 #define CID_WIDTH 14
 #define CID_USER 15
+#define CID_ACOS 40
+#define CID_SIN 41
+#define CID_COS 42
+#define CID_FABS 43
 /* node n is exactly node m (shared sub-expression / pass-through) */
 #define P_SAME(n, m) ((n) == (m))
 #endif
